@@ -118,7 +118,7 @@ Theorem c12_guard_gt_mutation_refuted :
   exists s1 s2 o1 o2,
     tick_later_g GGt false 1000000000 init = Some (s1, o1) /\
     tick_later_g GGt false 1000000000 s1 = Some (s2, o2) /\ pend s2 = [1000; 1000].
-Proof. do 4 eexists. vm_compute. repeat split. Qed.
+Proof. do 4 eexists. split; [vm_compute; reflexivity|]. split; [vm_compute; reflexivity|]. vm_compute. repeat split. Qed.
 Print Assumptions c12_guard_gt_mutation_refuted.
 
 (** NextTick -> ThisTick in TickLater: after a tick at an edge that made progress
@@ -160,3 +160,27 @@ Theorem c12_model_agreement_implies_property : forall c,
   wf_case c = true -> check_case c = true -> holds_on c = true.
 Proof. exact check_implies_holds. Qed.
 Print Assumptions c12_model_agreement_implies_property.
+
+(** Non-vacuity of the hypotheses of clauses 3 and 4 (700 MHz, period 1428 ps):
+    a history ending in [Ret true] resp. a notification, and a continuation in
+    which other handlers run, a duplicate request arrives and the tick is dispatched. *)
+Example c12_progress_reticks_nonvacuous :
+  exists s1 evs1 s2 evs2,
+    exec 700000000 init ([Adv 10; Call KTickNow; Adv 1428; Pop] ++ [Ret true]) = Some (s1, evs1) /\
+    exec 700000000 s1 [Adv 2000; Call KTickNow; Call KNotifyRecv; Adv 2856; Pop; Ret false] = Some (s2, evs2) /\
+    now s1 = 1428 /\ least_multiple_gt 1428 (now s1) = 2856 /\ pops evs2 = [2856].
+Proof. do 4 eexists. split; [vm_compute; reflexivity|]. split; [vm_compute; reflexivity|]. vm_compute. repeat split. Qed.
+
+Example c12_notify_later_edge_nonvacuous :
+  exists s1 evs1 s2 evs2,
+    exec 700000000 init ([Adv 1428; Call KTickNow] ++ [Call KNotifyPortFree]) = Some (s1, evs1) /\
+    exec 700000000 s1 [Pop; Ret false; Adv 2000; Pop; Ret false] = Some (s2, evs2) /\
+    now s1 = 1428 /\ pops evs2 = [1428; 2856] /\ least_multiple_gt 1428 1428 = 2856.
+Proof. do 4 eexists. split; [vm_compute; reflexivity|]. split; [vm_compute; reflexivity|]. vm_compute. repeat split. Qed.
+
+Example c12_link_nonvacuous :
+  let c := mk_case [mk_comp 1000000000
+      [EAdv 5; ECall KNotifyRecv 5 (OSched 1000); ECall KTickNow 5 ODrop; EPop 1000; ERet true (OSched 2000);
+       EPop 2000; ERet false ODrop]] true in
+  wf_case c = true /\ check_case c = true /\ holds_on c = true.
+Proof. vm_compute. repeat split. Qed.
